@@ -18,6 +18,7 @@ package c16
 import (
 	"fmt"
 	"math/big"
+	"math/bits"
 	"regexp"
 	"sort"
 	"strings"
@@ -97,7 +98,7 @@ const (
 	pViolate  = 9  // per declared constraint: chance (in %) that it is built to fail
 	pMismatch = 6  // per definition level: chance (in %) of a deliberately non-matching type
 	pRagged   = 6  // per dynamic element: chance (in %) of a value of another shape
-	pOddEntry = 10 // per numeric enum: chance (in %) of Go-int / string entries
+	pOddEntry = 20 // per numeric enum: chance (in %) of Go-int / string entries
 )
 
 // ---- value generation ----------------------------------------------------------
@@ -154,7 +155,7 @@ func genLeaf(t *rapid.T, p *plan, kind string) sm.Value {
 	if kind == "" {
 		switch p.family {
 		case "int":
-			kind = pick(t, intKinds, "ikind")
+			kind = pick(t, append([]string{"uint8"}, intKinds...), "ikind")
 		case "float":
 			kind = pick(t, sm.FloatKinds, "fkind")
 		case "string":
@@ -162,7 +163,7 @@ func genLeaf(t *rapid.T, p *plan, kind string) sm.Value {
 		case "bool":
 			kind = sm.KBool
 		default:
-			kind = pick(t, []string{"int", "int8", "uint16", "int64", "uint64", "float32", "float64", "float64", sm.KString, sm.KString, sm.KBool}, "mkind")
+			kind = pick(t, []string{"int", "int8", "uint8", "uint16", "int64", "uint64", "float32", "float64", "float64", sm.KString, sm.KString, sm.KBool}, "mkind")
 		}
 	}
 	switch kind {
@@ -438,7 +439,7 @@ func fitNumber(t *rapid.T, vals []sm.Value) sm.Def {
 				g.GCD(nil, nil, g, new(big.Int).Abs(r.Num()))
 			}
 			cands = append(cands, big.NewRat(1, 1))
-			if g.Sign() > 0 {
+			if g.Sign() > 0 && (d.Format != "int32" || g.Cmp(big.NewInt(1<<31-1)) <= 0) {
 				cands = append(cands, new(big.Rat).SetInt(g), new(big.Rat).SetInt(g))
 			}
 			if !integer {
@@ -890,26 +891,48 @@ func check(c Case) (out ev.Outcome) {
 	}
 	got := res.IsValid()
 	if got != want {
-		// a deviation: is it exactly the effect of listed findings?
-		dev := sm.Dev{}
+		// a deviation: is it exactly the effect of listed findings? Look for the smallest set of open
+		// deviation modes that reproduces the library's verdict with every member of the set at work
+		// (a listed finding that has been repaired in the meantime then simply never takes part).
+		var open []string
 		for _, n := range sm.AllDeviations {
 			if _, ok := ev.KnownOpen(n); ok {
-				dev[n] = true
+				open = append(open, n)
 			}
 		}
 		explained := false
-		if len(dev) > 0 {
+		var subsets []int
+		for m := 1; m < 1<<len(open); m++ {
+			subsets = append(subsets, m)
+		}
+		sort.SliceStable(subsets, func(i, j int) bool { return bits.OnesCount(uint(subsets[i])) < bits.OnesCount(uint(subsets[j])) })
+		for _, m := range subsets {
+			dev := sm.Dev{}
+			for i, n := range open {
+				if m&(1<<i) != 0 {
+					dev[n] = true
+				}
+			}
 			o2 := opts
 			o2.Dev = dev
 			replica, tr2 := sm.Eval(&c.Def, c.Value, o2)
-			if replica == got && len(tr2.Touched) > 0 && len(tr2.Excluded) == 0 {
-				explained = true
-				for _, n := range tr2.Touched.Names() {
-					id, _ := ev.KnownOpen(n)
-					out.Known = append(out.Known, id)
-				}
-				sort.Strings(out.Known)
+			if len(tr2.Touched) != len(dev) {
+				continue
 			}
+			if len(tr2.Excluded) > 0 {
+				// past the listed deviations the evaluation meets a pair for which the verdict is not defined
+				return ev.Outcome{Excluded: tr2.Excluded, Classes: []string{"excluded"}}
+			}
+			if replica != got {
+				continue
+			}
+			explained = true
+			for _, n := range tr2.Touched.Names() {
+				id, _ := ev.KnownOpen(n)
+				out.Known = append(out.Known, id)
+			}
+			sort.Strings(out.Known)
+			break
 		}
 		if !explained {
 			verdict := map[bool]string{true: "valid", false: "invalid"}
